@@ -28,6 +28,11 @@ EXPLANATION = "pycoin succeeds <=> reference succeeds, and equal final stacks fo
 TIMEOUT = {"quick": 900, "thorough": 4 * 3600}
 
 
+def txser_bytes(tx):
+    from vmon.refs import txser
+    return txser.serialize(tx)
+
+
 def data_dir(spec):
     return os.path.join(spec["repo"], "tests", "btc", "data")
 
@@ -252,7 +257,56 @@ class Monitor:
             pass
         return trace
 
+    def run_multi(self, case):
+        """every input of one transaction: fresh checker per input (Tx.check_solution) and ONE checker object for all inputs,
+        forward and backward; each verdict must equal the consensus verdict for that input"""
+        rec = self.rec
+        tx, flags = case["tx"], case["flags"]
+        n = len(tx["ins"])
+        ref = []
+        for i in range(n):
+            chk = RS.TxChecker(tx, i, case["amounts"][i])
+            ref.append(RS.result_of(RS.verify_script, tx["ins"][i]["script"], case["spks"][i], tx["ins"][i]["witness"], flags, chk) == "OK")
+        Tx = self.py.Tx
+        ins = []
+        for i in tx["ins"]:
+            ti = Tx.TxIn(i["prev"], i["index"], i["script"], i["sequence"])
+            ti.witness = list(i["witness"])
+            ins.append(ti)
+        ptx = Tx(tx["version"], ins, [Tx.TxOut(o["value"], o["script"]) for o in tx["outs"]], tx["lock_time"],
+                 [Tx.TxOut(a, s) for a, s in zip(case["amounts"], case["spks"])])
+        rec.case(("multi", txser_bytes(tx), flags), nontrivial=True)
+        rec.ev("src:multi")
+
+        def verdict(fn):
+            try:
+                fn()
+                return True
+            except self.py.ScriptError:
+                return False
+            except Exception as e:
+                return "EXC:" + type(e).__name__
+        fresh = [verdict(lambda i=i: ptx.check_solution(i, flags=flags)) for i in range(n)]
+        rec.ev("Tx.check_solution", n)
+        results = {"fresh": fresh}
+        for name, order in (("shared_forward", list(range(n))), ("shared_backward", list(range(n - 1, -1, -1)))):
+            sc = ptx.SolutionChecker(ptx)
+            got = {}
+            for i in order:
+                got[i] = verdict(lambda i=i: sc.check_solution(sc.tx_context_for_idx(i), flags=flags))
+            results[name] = [got[i] for i in range(n)]
+            rec.ev("SolutionChecker.check_solution(shared instance)", n)
+        for name, got in results.items():
+            if got != ref:
+                bad = [i for i in range(n) if got[i] != ref[i]]
+                direction = "accepts" if any(got[i] is True for i in bad) else "rejects"
+                rec.violation("multi.%s.%s" % (direction, name), case, {name: got}, {"consensus": ref})
+                return False
+        return True
+
     def run(self, case):
+        if case["k"] == "multi":
+            return self.run_multi(case)
         rec = self.rec
         rtrace = []
         ref_code, ref_stack = ref_run(case, rtrace)
@@ -312,6 +366,8 @@ def run_shard(spec, rec):
         feed(G.boundary_s_cases(rng, keys), 300)
         feed(G.nullfail_matrix(rng, keys), 500)
         feed(G.tiny_sig_matrix(rng, keys), 100)
+        feed(G.two_sigops_cases(rng, keys, 160), 80)
+        feed(G.multi_input_cases(rng, keys, 120), 60)
     elif kind == "mut":
         feed(G.corpus_mutations(rng, dd, spec["n"]), 3000)
     elif kind == "opm":
@@ -321,6 +377,7 @@ def run_shard(spec, rec):
         feed(G.SigGen(rng, keys).p2pk_like(spec["n"]), 400)
     elif kind == "multisig":
         feed(G.SigGen(rng, keys).multisig(spec["n"]), 150)
+        feed(G.two_sigops_cases(rng, keys, spec["n"] // 3), 150)
     elif kind == "lock_rand":
         feed(G.locktime_cases(rng, spec["n_lock"]), 2500)
         feed(G.locktime_eval_cases(rng, spec["n_lock"] // 4), 1500)
@@ -331,6 +388,8 @@ def run_shard(spec, rec):
 
 
 def _brief(case):
+    if case["k"] == "multi":
+        return {"k": "multi", "inputs": len(case["tx"]["ins"]), "outputs": len(case["tx"]["outs"]), "flags": case["flags"], "src": case["src"]}
     i = case["tx"]["ins"][case["n_in"]]
     if case["k"] == "eval":
         return {"k": "eval", "script": case["script"][:80], "stack": [x[:20] for x in case["stack"][:4]], "flags": case["flags"], "sv": case["sv"], "src": case["src"]}
@@ -341,7 +400,7 @@ def _brief(case):
 def replay_case(case, rec):
     mon = Monitor(rec)
     ok = mon.run(case)
-    if not ok:
+    if not ok and case["k"] != "multi":
         rt = []
         ref_run(case, rt)
         pt = mon.py_trace(case)
